@@ -39,6 +39,8 @@ let run line =
   | "J" -> let fl = strs_of f.(2) and fv = strs_of f.(3) in
            (match import_proof (mandatory (f.(1) = "1") (List.combine fl fv) (strs_of f.(4))) (str_of f.(5)) with
             | Some (tbl, st) -> "OK " ^ show_strs tbl ^ " " ^ show_ns st | None -> "N")
+  | "B" -> (match appendixB_decode (str_of f.(1)) with Some n -> "S " ^ string_of_int (int_of_n n) | None -> "N")
+  | "A" -> (match appendixB_stream (str_of f.(1)) with Some l -> "S " ^ show_ns l | None -> "N")
   | "T" -> show_str (proof_field (str_of f.(1)))
   | "W" -> let lo = int_of_string f.(1) and hi = int_of_string f.(2) in
            let r = ref [] in
